@@ -167,6 +167,8 @@ func (tmg *TCPMuxGroup) worker() {
 			tmg.acceptCh <- c
 		})
 		if err != nil {
+			// the group was closed while this connection waited to be handed to a member
+			_ = c.Close()
 			return
 		}
 	}
